@@ -154,6 +154,48 @@ static J gen_ridge_alias_case(Chooser &ch)
   return c;
 }
 
+// Root-cause classification for a failure next to a curved trench: BezierCurve::closest_point_on_curve_segment runs one Newton
+// iteration per curve segment and keeps whatever local minimiser it converges to (listed finding of C19). Which start values are tried
+// depends on the 360-degree copy of the longitude the point arrives in, so the two frames can settle on different feet. The case is
+// attributed to that finding only if it is demonstrated here: in one of the two frames the reported foot of some curved trench is
+// noticeably farther from the point than the closest point found by dense sampling of the same curve.
+#include "world_builder/objects/bezier_curve.h"
+static double c08_hav(double lon1, double lat1, double lon2, double lat2)
+{
+  const double a = std::sin((lat2 - lat1) / 2) * std::sin((lat2 - lat1) / 2) + std::cos(lat1) * std::cos(lat2) * std::sin((lon2 - lon1) / 2) * std::sin((lon2 - lon1) / 2);
+  return 2 * std::asin(std::min(1.0, std::sqrt(a)));
+}
+static bool foot_not_global(const J &world, bool sph, double qx, double qy)
+{
+  for (const auto &f : world.at("features").a)
+    {
+      if (!f.has("segments") || f.at("coordinates").size() < 3) continue;
+      std::vector<WB::Point<2>> pts;
+      const double u = sph ? DEG : 1.0;
+      for (const auto &p : f.at("coordinates").a) pts.emplace_back(p[0].num() * u, p[1].num() * u, sph ? WB::spherical : WB::cartesian);
+      WB::Objects::BezierCurve curve(pts);
+      double L = 0;
+      for (size_t i = 0; i + 1 < pts.size(); ++i) L += (pts[i + 1] - pts[i]).norm();
+      // the point in the copy of the longitude nearest to the trench
+      double x = qx * u;
+      if (sph) { while (x - pts[0][0] > PI) x -= 2 * PI; while (x - pts[0][0] < -PI) x += 2 * PI; }
+      const WB::Point<2> cp(x, qy * u, sph ? WB::spherical : WB::cartesian);
+      auto dist = [&](const WB::Point<2> &a) { return sph ? c08_hav(a[0], a[1], cp[0], cp[1]) : (a - cp).norm(); };
+      double bd = HUGE_VAL;
+      for (size_t i = 0; i + 1 < pts.size(); ++i)
+        for (int k = 0; k <= 4000; ++k) bd = std::min(bd, dist(curve(i, k / 4000.0)));
+      // as the library asks: natural longitude in (-pi, pi]
+      double xn = qx * u;
+      if (sph) { while (xn > PI) xn -= 2 * PI; while (xn <= -PI) xn += 2 * PI; }
+      const auto res = curve.closest_point_on_curve_segment(WB::Point<2>(xn, qy * u, sph ? WB::spherical : WB::cartesian));
+      if (!std::isfinite(res.distance)) continue;
+      WB::Point<2> rp = res.point;
+      if (sph) { while (rp[0] - cp[0] > PI) rp[0] -= 2 * PI; while (rp[0] - cp[0] < -PI) rp[0] += 2 * PI; }
+      if (dist(rp) > bd + 1e-6 * L + 1e-5 * bd) return true;
+    }
+  return false;
+}
+
 static const PropList &cmp_list()
 {
   static const PropList l = {{{1, 0, 0}}, {{2, 0, 0}}, {{2, 1, 0}}, {{2, 2, 0}}, {{2, 3, 0}}, {{2, 4, 0}}, {{2, 5, 0}}, {{3, 0, 2}}, {{3, 1, 1}}};
@@ -270,6 +312,19 @@ static Result check_motion(const J &c)
       for (auto &f : root.at("features").a) { const std::string tg = f.has("tag") ? f.at("tag").str() : f.at("model").str(); if (tg == a.tag || tg == b.tag) owner = f.at("model").str(); }
       std::string sig = fr.sph ? "sph-longitude-offset" : "cart-rigid-motion";
       if (owner == "plume" && fr.sph) sig = "plume-longitude-alias";
+      // three consecutive trench coordinates exactly on one line: the orientation tests for the Bezier control points compare cross
+      // products that are zero up to rounding, so the curve's shape follows the rounding of the absolute coordinates (root cause
+      // listed under C06, "collinear intermediate coordinate")
+      for (const auto &f : root.at("features").a)
+        if (f.has("segments"))
+          for (size_t i = 0; i + 2 < f.at("coordinates").size(); ++i)
+            {
+              const J &p0 = f.at("coordinates")[i], &p1 = f.at("coordinates")[i + 1], &p2 = f.at("coordinates")[i + 2];
+              const double ux = p1[0].num() - p0[0].num(), uy = p1[1].num() - p0[1].num(), vx = p2[0].num() - p1[0].num(), vy = p2[1].num() - p1[1].num();
+              if (std::fabs(ux * vy - uy * vx) <= 1e-12 * (std::fabs(ux * vy) + std::fabs(uy * vx))) sig = "collinear-trench-coordinates";
+            }
+      if (foot_not_global(root, fr.sph, q.at("nat")[0].num(), q.at("nat")[1].num()) || foot_not_global(moved, fr.sph, q2.at("nat")[0].num(), q2.at("nat")[1].num()))
+        sig = "curved-trench-foot-is-a-local-minimum";
       return Result::fail(sig, std::string(fr.sph ? "longitude offset " + fmt(m.dlon) : "rotation " + fmt(m.angle_deg) + " deg + translation (" + fmt(m.tx) + "," + fmt(m.ty) + ")") + " changes the answer (" + what + ") at " + q.dump() + " -> " + q2.dump());
     }
   return r;
